@@ -35,8 +35,8 @@ CLAIMED = {
    technique='MIR symbolic execution + z3 (integer encoding with explicit wrap-around), inductive step from arbitrary valid state, native replay',
    ref='DESIGN.md section 3 C11, section 1.2'),
  'C13': dict(
-   text='Kani/CBMC harness per built-in: member(TABLE, c) == rust_predicate(c) for an arbitrary char c over the real char_ranges.rs tables and the real core/unicode_xid predicates (18 of 20 names; alphabetic and alphanumeric exceed the unwinding reach of CBMC in core::unicode skip_search and are only scanned natively); plus name->table mapping and both generated lookup shapes (guard chain, binary-search table with the real generated binary_search) through engine M on lexers `$$name+`, `$$name`, combinations with `#`, `|`, right contexts (all characters; quick: 15 names, thorough: all 20).',
-   note='Trusted: Kani 0.68/CBMC 6.11, the harness binary search (tables checked sorted natively), equality of the Unicode version of the core library Kani uses and the repository toolchain (asserted). Outside the solver claim: alphabetic, alphanumeric table contents (native exhaustive scan only); slice::binary_search_by is summarised by the probe sequence of the toolchain std implementation.',
+   text='Kani/CBMC harness per built-in: member(TABLE, c) == rust_predicate(c) for an arbitrary char c over the real char_ranges.rs tables and the real core/unicode_xid predicates (18 of 20 names; alphabetic and alphanumeric exceed the unwinding reach of CBMC in core::unicode skip_search and are decided by engine M instead: the predicate code is copied at run time from the nightly rust-src, explored path by path for a symbolic char, z3 decides table membership per path); plus name->table mapping and both generated lookup shapes (guard chain, binary-search table with the real generated binary_search) through engine M on lexers `$$name+`, `$$name`, combinations with `#`, `|`, right contexts (all characters; quick: 15 names, thorough: all 20).',
+   note='Trusted: Kani 0.68/CBMC 6.11, the harness binary search (tables checked sorted natively), equality of the Unicode version of the core library Kani uses and the repository toolchain (asserted). For alphabetic/alphanumeric the predicate source is the nightly rust-src copy of core (same Unicode version as the repository toolchain, checked; the native exhaustive scan under the repository toolchain confirms); if that copy cannot be built the two tables are listed as not decided. slice::binary_search_by / binary_search_by_key are summarised by the probe sequence of the toolchain std implementation.',
    technique='Kani/CBMC bounded model checking of table lookup vs real predicate with symbolic char + MIR symbolic execution (z3) of one-rule lexers per built-in; native replay',
    ref='DESIGN.md section 3 C13', engine='kani'),
  'C18': dict(
@@ -90,7 +90,7 @@ def main():
         },
         'engines': [
             {'name': 'kani', 'path': 'lib/c13.py', 'serves_properties': ['C13'], 'kind_free_text': 'Kani 0.68 / CBMC 6.11 proof harnesses generated into a scratch crate that #[path]-includes /repo/crates/lexgen/src/char_ranges.rs'},
-            {'name': 'mirse', 'path': 'lib/mirse', 'serves_properties': sorted(p for p in CLAIMED if p != 'C13'),
+            {'name': 'mirse', 'path': 'lib/mirse', 'serves_properties': sorted(CLAIMED),
              'kind_free_text': 'path-based symbolic executor over rustc -Zunpretty=mir dumps regenerated from /repo on every run; z3 decides every branch and every post-condition; counterexamples replayed natively'},
         ],
         'checks': checks,
